@@ -16,6 +16,7 @@ import (
 	"github.com/alpacahq/marketstore/v4/utils"
 	"github.com/alpacahq/marketstore/v4/utils/io"
 	"github.com/alpacahq/marketstore/v4/utils/log"
+	"github.com/alpacahq/marketstore/v4/verifhook"
 )
 
 // Writer is produced that complies with the parsed query results, including a possible date
@@ -238,6 +239,7 @@ func WriteBufferToFileIndirect(fp stdio.ReadWriteSeeker, buffer wal.OffsetIndexB
 	} else if _, err = fp.Write(dataToBeWritten); err != nil {
 		return err
 	}
+	verifhook.At("Indirect.afterData", index)
 
 	// log.Info("LAL end_off:%d, len:%d, data:%v", endOfFileOffset, dataLen, dataToBeWritten)
 
@@ -354,7 +356,9 @@ func (w *Writer) WriteCSM(csm io.ColumnSeriesMap, isVariableLength bool) error {
 		}
 	}
 
+	verifhook.At("WriteCSM.beforeFlush")
 	w.walFile.RequestFlush()
+	verifhook.At("WriteCSM.afterFlush")
 	metrics.WriteCSMDuration.Observe(time.Since(start).Seconds())
 	return nil
 }
